@@ -79,6 +79,11 @@ type Prog struct {
 	Procs      int
 	Forced     *Forced
 	Excluded   int // combinations removed by construction because they match a known finding
+	// C07: subscriptions go through Depth MessageTransform subscriber decorators, and Close is called
+	// (on the outermost decorator) as soon as EarlyClose Publish calls have returned.
+	Depth        int
+	EarlyCloseOn bool
+	EarlyClose   int
 }
 
 func MsgID(p, c, i int) string { return fmt.Sprintf("p%dc%dm%d", p, c, i) }
@@ -339,10 +344,17 @@ type History struct {
 	ParkReached bool
 	ParkWanted  bool
 	closing     bool
-	Problems    []string // liveness problems detected by the runner itself
-	CloseErr    error
-	GC          *gochannel.GoChannel
-	mu          sync.Mutex
+	// C07 observations
+	ClosedWhileBusy  bool
+	PostPublishErr   error
+	PostSubscribeErr error
+	PostChecked      bool
+	LeakedGoroutines int
+	LeakSample       string
+	Problems         []string // liveness problems detected by the runner itself
+	CloseErr         error
+	GC               *gochannel.GoChannel
+	mu               sync.Mutex
 }
 
 type markerKey struct{}
@@ -358,6 +370,10 @@ func Run(p Prog) *History {
 		BlockPublishUntilSubscriberAck: p.Blocking,
 	}, watermill.NopLogger{})
 	h.GC = g
+	var sub message.Subscriber = g
+	for i := 0; i < p.Depth; i++ {
+		sub, _ = message.MessageTransformSubscriberDecorator(func(*message.Message) {})(sub)
+	}
 	ctl := lib.Install()
 	defer ctl.Uninstall()
 	ctl.Noise(p.Noise)
@@ -401,7 +417,7 @@ func Run(p Prog) *History {
 		cancels[i] = cancel
 		sr.Ctx = ctx
 		sr.StartT = lib.Tick()
-		ch, err := g.Subscribe(ctx, sr.Topic)
+		ch, err := sub.Subscribe(ctx, sr.Topic)
 		h.mu.Lock()
 		sr.EndT = lib.Tick()
 		sr.Err, sr.Ch, sr.Started = err, ch, true
@@ -499,6 +515,37 @@ func Run(p Prog) *History {
 			}
 		}(pi, pub)
 	}
+	closed := make(chan error, 1)
+	closeOnce := sync.Once{}
+	startClose := func() {
+		closeOnce.Do(func() {
+			h.mu.Lock()
+			h.closing = true
+			for _, pr := range h.Pubs {
+				if !pr.Returned {
+					h.ClosedWhileBusy = true
+				}
+			}
+			h.mu.Unlock()
+			go func() { closed <- sub.Close() }()
+		})
+	}
+	if p.EarlyCloseOn {
+		go func() {
+			lib.WaitUntil(2*lib.Live, func() bool {
+				h.mu.Lock()
+				defer h.mu.Unlock()
+				n := 0
+				for _, pr := range h.Pubs {
+					if pr.Returned {
+						n++
+					}
+				}
+				return n >= p.EarlyClose
+			})
+			startClose()
+		}()
+	}
 	close(startGate)
 	done := make(chan struct{})
 	go func() { wg.Wait(); close(done) }()
@@ -512,18 +559,16 @@ func Run(p Prog) *History {
 		return h
 	}
 	// wait until every mandatory delivery happened
-	if !lib.WaitUntil(lib.Live, func() bool { return len(h.Missing()) == 0 }) {
-		// re-confirm once with a doubled bound before calling it a loss
-		if !lib.WaitUntil(2*lib.Live, func() bool { return len(h.Missing()) == 0 }) {
-			h.problem("loss: %v", h.Missing())
+	if !p.EarlyCloseOn {
+		if !lib.WaitUntil(lib.Live, func() bool { return len(h.Missing()) == 0 }) {
+			// re-confirm once with a doubled bound before calling it a loss
+			if !lib.WaitUntil(2*lib.Live, func() bool { return len(h.Missing()) == 0 }) {
+				h.problem("loss: %v", h.Missing())
+			}
 		}
+		time.Sleep(300 * time.Microsecond)
 	}
-	time.Sleep(300 * time.Microsecond)
-	h.mu.Lock()
-	h.closing = true
-	h.mu.Unlock()
-	closed := make(chan error, 1)
-	go func() { closed <- g.Close() }()
+	startClose()
 	select {
 	case h.CloseErr = <-closed:
 	case <-time.After(lib.Live):
@@ -541,6 +586,13 @@ func Run(p Prog) *History {
 		if c != nil {
 			c()
 		}
+	}
+	// state after Close
+	h.PostPublishErr = g.Publish(topicName(0), message.NewMessage("after-close", nil))
+	_, h.PostSubscribeErr = sub.Subscribe(context.Background(), topicName(0))
+	h.PostChecked = true
+	if !lib.WaitUntil(lib.Live, func() bool { n, _ := lib.PubSubGoroutines(); return n == 0 }) {
+		h.LeakedGoroutines, h.LeakSample = lib.PubSubGoroutines()
 	}
 	return h
 }
